@@ -648,7 +648,7 @@ Proof.
   destruct (s_call sp); cbn; repeat split.
 Qed.
 
-Lemma pres_epoch_change z w H sz' :
+Lemma pres_epoch_change z w H sz' e' :
   (* the new state of side z, the partner cleared, the epoch incremented *)
   s_cl sz' = s_cl (gs z w) -> s_rq sz' = s_rq (gs z w) ->
   (forall r, In r (s_cq sz') -> In r (s_cq (gs z w))) ->
@@ -656,7 +656,7 @@ Lemma pres_epoch_change z w H sz' :
   (forall prev, link_prev sz' = Some prev -> scan_end (open_of (gs z w)) (s_rq (gs z w)) = prev) ->
   IL (conn_of (gs z w)) (open_of (gs z w)) (s_rq (gs z w)) (s_cq sz') (is_linked sz') ->
   InvX z w H -> InvX (negb z) w H ->
-  let w' := set_epoch (w_epoch w + 1) (ss (negb z) (cleared (gs (negb z) w)) (ss z sz' w)) in
+  let w' := set_epoch e' (ss (negb z) (cleared (gs (negb z) w)) (ss z sz' w)) in
   InvX z w' H /\ InvX (negb z) w' H.
 Proof.
   intros Ecl Erq Ecq Ebr Eak Elp ILnew (IAz & IBz & ILz) (IAy & IBy & ILy) w'.
@@ -665,7 +665,7 @@ Proof.
   { unfold w'. rewrite gs_set_epoch. destruct z; reflexivity. }
   assert (Gy : gs (negb z) w' = cleared (gs (negb z) w)).
   { unfold w'. rewrite gs_set_epoch. destruct z; reflexivity. }
-  assert (Ge : w_epoch w' = w_epoch w + 1) by (unfold w'; destruct z; reflexivity).
+  assert (Ge : w_epoch w' = e') by (unfold w'; destruct z; reflexivity).
   destruct (cleared_facts (gs (negb z) w)) as (C1 & C2 & C3 & C4 & C5 & C6 & C7).
   split.
   - unfold InvX. rewrite Gz, Gy, Ge. unfold recv_of, open_of, conn_of. rewrite C1, C2, C3, C4, Ecl, Erq, Eak.
@@ -704,7 +704,7 @@ Proof.
   rewrite Eq in Er. inversion Er; subst rest0.
   assert (Hc : conn_of (gs z w) <> None).
   { intros E. destruct (L0 E) as (_ & _ & E'). rewrite Eq in E'. discriminate. }
-  apply (pres_epoch_change z w H (mkSide (s_cl (gs z w)) rest (s_rq (gs z w)) (Some (mkRc mb_empty None WReady true)))); auto.
+  apply (pres_epoch_change z w H (mkSide (s_cl (gs z w)) rest (s_rq (gs z w)) (Some (mkRc mb_empty None WReady true))) (w_epoch w + 1)); auto.
   - cbn. intros r Hi. rewrite Eq. right. exact Hi.
   - cbn. intros prev E. inversion E; subst. rewrite Lr, Lo. reflexivity.
   - cbn. constructor.
@@ -722,7 +722,8 @@ Proof.
   destruct (s_call (gs z w)) as [c|] eqn:Ec; [|discriminate]. destruct (rc_linked c) eqn:El; [discriminate|].
   inversion St; subst w' o. clear St. rewrite app_nil_r. rewrite gs_ss_other'.
   pose proof Iz as (_ & _ & ILz). destruct ILz as [L0 L1 L2].
-  apply (pres_epoch_change z w H (set_call None (gs z w))); auto.
+  apply (pres_epoch_change z w H (set_call None (gs z w))
+           (match s_call (gs (negb z) w) with Some _ => w_epoch w + 1 | None => 0 end)); auto.
   - cbn. discriminate.
   - cbn. constructor; auto. discriminate.
 Qed.
